@@ -189,9 +189,16 @@ func (s *setupWorker) setup(ctx context.Context, m transport.Metadata) error {
 		zap.String("session_username", string(connectPkt.Username)),
 	)
 	L(ctx).Debug("session connected")
-	if metadata, err := s.state.SessionMetadatas().ByClientID(session.MountPoint(), session.ClientID()); err == nil {
+	// Remove every earlier session of this client. There can be more than one:
+	// when the client moved between nodes, the record of a later session may
+	// have reached this node before the removal of an earlier one.
+	for {
+		metadata, err := s.state.SessionMetadatas().ByClientID(session.MountPoint(), session.ClientID())
+		if err != nil {
+			break
+		}
 		verifPoint("setup.afterLookupOld", session.ID())
-		err := s.state.SessionMetadatas().Delete(metadata.SessionID)
+		err = s.state.SessionMetadatas().Delete(metadata.SessionID)
 		if err != nil {
 			return err
 		}
